@@ -36,7 +36,7 @@ class Obligation:
         return self
 
     def __exit__(self, et, ev, tb):
-        if self.verdict == VIOLATED and self.imprecise:
+        if self.verdict == VIOLATED and self.imprecise and os.environ.get('VERIF_IMPRECISE_UNDECIDED') == '1':
             # a difference found next to values the evaluator could not compute (an unmodelled construct on the way) is not a
             # reliable difference: what follows an unknown value is unknown
             self.verdict = UNDECIDED
